@@ -41,6 +41,15 @@ Theorem C11_decode_conforming : forall m v ext ts n,
     cf_decompress CF10 m s = Ok x /\ cf_decompress CF13 m s = Ok x.
 Proof. exact decode_conforming. Qed.
 
+(* every stream the strict parser accepts - writer output or not, any padding bits in the last flag byte - through
+   the entry points: LZ10, LZ13 bare, LZ13 behind any 0x13 wrapper, both enum variants *)
+Theorem C11_decode_wellformed_entry_points : forall m v s n ts, sparse v s = Some (n, ts) ->
+  exists x, expand ts = Some x /\ lenN x = n /\
+    lz10_decompress m s = Ok x /\ lz13_decompress m s = Ok x /\
+    (forall a b c, lz13_decompress m (0x13 :: a :: b :: c :: s) = Ok x) /\
+    cf_decompress CF10 m s = Ok x /\ cf_decompress CF13 m s = Ok x.
+Proof. exact decode_sparse_entry_points. Qed.
+
 (* --- the entry points --- *)
 Theorem C11_wrapper_stripped : forall m a b c s, lz13_decompress m (0x13 :: a :: b :: c :: s) = decompress_lz m s.
 Proof. exact lz13_wrapped. Qed.
@@ -56,20 +65,24 @@ Theorem C11_format_dispatch : forall f m bytes,
   cf_decompress f m bytes = match f with CF10 => lz10_decompress m bytes | CF13 => lz13_decompress m bytes end.
 Proof. exact dispatch. Qed.
 
-(* decompress . compress = id through the enum, for both variants, the empty payload included; and the formats
-   crossed: the LZ13 entry point reads what the LZ10 format wrote (bare stream), the LZ10 entry point rejects
-   what the LZ13 format wrote (0x13 wrapper = unknown type) *)
-Theorem C11_format_round_trip : forall f mc md x, wfb x -> lenN x < 2 ^ 24 ->
-  exists c, cf_compress f mc x = Ok c /\ cf_decompress f md c = Ok x.
-Proof. exact cf_round_trip. Qed.
+(* decompress . compress = id through the enum, for both variants: whenever compress returns Ok (no size hypothesis -
+   after the repair of F21 compress fails with InputTooLarge exactly when the size field cannot store the length),
+   and it does return Ok below 2^24 (LZ10) / 2^32 (LZ13) bytes, the empty payload included *)
+Theorem C11_format_round_trip : forall f mc md x c, wfb x -> cf_compress f mc x = Ok c -> cf_decompress f md c = Ok x.
+Proof. exact cf_round_trip_ok. Qed.
 
-Theorem C11_formats_crossed : forall mc md x, wfb x -> lenN x < 2 ^ 24 ->
-  (exists c, cf_compress CF10 mc x = Ok c /\ cf_decompress CF13 md c = Ok x) /\
-  (forall c, cf_compress CF13 mc x = Ok c -> cf_decompress CF10 md c = Err EInvalidInput).
+Theorem C11_format_compress_total : forall f mc x,
+  (lenN x < cf_limit f -> exists c, cf_compress f mc x = Ok c) /\
+  (cf_limit f <= lenN x -> cf_compress f mc x = Err ETooLarge).
+Proof. exact cf_compress_total. Qed.
+
+(* the formats crossed: the LZ13 entry point reads what the LZ10 format wrote (bare stream), the LZ10 entry point
+   rejects what the LZ13 format wrote (0x13 wrapper = unknown type) *)
+Theorem C11_formats_crossed : forall mc md x c, wfb x ->
+  (cf_compress CF10 mc x = Ok c -> cf_decompress CF13 md c = Ok x) /\
+  (cf_compress CF13 mc x = Ok c -> cf_decompress CF10 md c = Err EInvalidInput).
 Proof.
-  intros mc md x Hw Hn. split; [exact (cf13_reads_cf10 mc md x Hw Hn)|].
-  intros c Hc. apply (cf10_rejects_cf13 mc md x c); [|exact Hc].
-  change (2 ^ 24) with 16777216 in Hn. change (2 ^ 63) with 9223372036854775808. apply N.lt_trans with (1 := Hn). reflexivity.
+  intros mc md x c Hw. split; [exact (cf13_reads_cf10 mc md x c Hw) | exact (cf10_rejects_cf13 mc md x c)].
 Qed.
 
 (* --- never a panic: arbitrary input (not even required to consist of bytes), either mode --- *)
@@ -112,6 +125,30 @@ Theorem C11_reference_before_start : forall m v ext n ts len disp junk,
   lz10_decompress m s = Err EInvalidInput /\ lz13_decompress m s = Err EInvalidInput /\
   (forall a b c, lz13_decompress m (0x13 :: a :: b :: c :: s) = Err EInvalidInput).
 Proof. exact backref_is_error. Qed.
+
+(* "shorter than a header" for the extended LZ11 form: 0x11 0 0 0 and fewer than four more bytes *)
+Theorem C11_shorter_than_an_extended_header : forall m r, (length r < 4)%nat ->
+  lz10_decompress m (0x11 :: 0 :: 0 :: 0 :: r) = Err EInvalidInput /\
+  lz13_decompress m (0x11 :: 0 :: 0 :: 0 :: r) = Err EInvalidInput /\
+  (forall a b c, lz13_decompress m (0x13 :: a :: b :: c :: 0x11 :: 0 :: 0 :: 0 :: r) = Err EInvalidInput).
+Proof. exact short_ext_header_is_error. Qed.
+
+(* non-vacuity of the two negative theorems with non-trivial instances: a legal prefix [Lit 1; Lit 2] followed by a
+   reference three bytes back (second instance: the same with further flag bits set after the offending token - outside the
+   shape of C11_reference_before_start, an error all the same); a well-formed LZ11 stream cut inside its four-byte token *)
+Example C11_example_reference_before_start :
+  let s := sheader V10 false 10 ++ enc_body (senc V10) ([Lit 1; Lit 2] ++ [Ref 3 3]) ++ [9; 9] in
+  s = [0x10; 10; 0; 0; 0x20; 1; 2; 0x00; 0x02; 9; 9] /\ lz10_decompress Checked s = Err EInvalidInput /\
+  lz10_decompress Checked [0x10; 10; 0; 0; 0x3F; 1; 2; 0x00; 0x02; 9; 9; 9; 9] = Err EInvalidInput.
+Proof. vm_compute. repeat split. Qed.
+
+Example C11_example_truncated :
+  let ts := [Lit 7; Ref 300 1] in
+  let s := sheader V11 false 301 ++ enc_body (senc V11) ts in
+  sparse V11 s = Some (301, ts) /\ s = [0x11; 0x2D; 0x01; 0; 0x40; 7; 0x10; 0x01; 0xB0; 0x00] /\
+  lz13_decompress Checked [0x11; 0x2D; 0x01; 0; 0x40; 7; 0x10; 0x01] = Err EInvalidInput /\
+  lz13_decompress Wrapping (0x13 :: 1 :: 2 :: 3 :: [0x11; 0x2D; 0x01; 0; 0x40; 7; 0x10; 0x01; 0xB0]) = Err EInvalidInput.
+Proof. vm_compute. repeat split. Qed.
 
 (* non-vacuity.  A legal LZ11 token sequence with displacement 1, an overlapping copy and the middle and
    long length forms the library's compressor never emits with these lengths; it is accepted and decoded.
